@@ -21,6 +21,7 @@ Decided clauses:
         it) before the first draw - a `while (!valid(r)) draw(r)` loop returns the caller's stale bytes when they happen to be valid.
   R18.6 every dispatch in randombytes.c fetches the function pointer from the struct `implementation` points to at the time of the
         call (no cached copy of a slot can survive randombytes_set_implementation()).
+  R18.8 the internal generator's refill keeps the rekeying material (pool[W, W+32)) outside the part of the pool it hands out (pool[0, O)).
   R18.7 the pointer to the installed source is process-global (a thread-local one makes the installation per thread).
 NOT decided: that min == 2^32 mod n (arithmetic); bit-exact replay.
 """
@@ -142,6 +143,41 @@ def run(ctx, chk):
     chk.ob("R18.7", "randombytes/randombytes.c::implementation", "the pointer to the installed source is a process-global object (not thread-local)",
            not gimpl.get("tls"), detail="" if not gimpl.get("tls") else "thread-local: randombytes_set_implementation() installs the source for "
            "the calling thread only, every other thread silently falls back to the default generator", key="R18.7 implementation tls")
+    # ---- R18.8 the internal generator never hands out the pool bytes it rekeys with (and then wipes) ----------------------------------
+    # On the refill path of randombytes_internal_random the pool [P, P + N) is filled by crypto_stream_chacha20, `rnd32_outleft` is set
+    # to a constant O (words are popped from below O), and randombytes_internal_random_xorkey takes the key material at P + W: the two
+    # regions are disjoint iff W >= O (and W + 32 <= N). Otherwise the wiped key material is served as "random" words.
+    rir = prog.fn("randombytes_internal_random")
+    if rir is not None:
+        n188 = 0
+        ps188 = cm.paths(prog, rir)
+        # the counter of unread pool bytes: the slot that is decremented by the size of one word where no refill happens
+        slots = {e.addr for p in ps188 for e in p.events if e.kind == "store" and e.val[0] == "bin" and e.val[1] == "sub"
+                 and e.val[3][0] == "c" and e.val[2][0] == "load"}
+        if len(slots) != 1:
+            raise AnalysisBroken("R18.8: the pool counter of randombytes_internal_random was not identified")
+        slot = next(iter(slots))
+        for p in ps188:
+            if p.kind != "ret":
+                continue
+            fill = [e for e in p.calls("crypto_stream_chacha20")]
+            xk = [e for e in p.calls("randombytes_internal_random_xorkey")]
+            if not fill or not xk:
+                continue
+            sets = [e for e in p.events if e.kind == "store" and e.addr == slot and e.val[0] == "c"][:1]
+            P, N = fill[0].args[0], fill[0].args[1]
+            K = xk[0].args[0]
+            n188 += 1
+            decidable = bool(sets) and P[0] == "gep" and K[0] == "gep" and P[1] == K[1] and not P[3] and not K[3] and N[0] == "c"
+            if not decidable:
+                raise AnalysisBroken("R18.8: pool / key-material / outleft of randombytes_internal_random are not constant offsets on the refill path")
+            O, W = sets[-1].val[1], K[2] - P[2]
+            ok = W >= O and W + 32 <= N[1]
+            chk.ob("R18.8", rir, "refill: words are popped from pool[0, %d), the rekeying material is pool[%d, %d): disjoint" % (O, W, W + 32), ok,
+                   loc=rir.loc(xk[0].iid), detail="" if ok else "the 32 bytes xored into the key and wiped afterwards lie inside the part of the "
+                   "pool that randombytes_random() hands out: every pool serves %d constant words" % ((min(O, W + 32) - W) // 4),
+                   path=None if ok else p, key="R18.8 internal pool")
+        chk.floor("R18.8", "refill paths of randombytes_internal_random", n188, 1)
     # ---- R18.6 every dispatch reads the installed source at call time ---------------------------------------------------------
     n6 = 0
     for f in sorted(prog.functions(), key=lambda f: f.name):
